@@ -1,5 +1,5 @@
 """C16 — JSON round trip preserves meaning, explicit ids and defaults."""
-import random, json, itertools
+import random, json, itertools, re
 import numpy as np
 import puan, puan.logic.plog as pg
 import puan.modules.configurator as cc
@@ -38,7 +38,7 @@ def doc_ids(doc, acc):
             doc_ids(v, acc)
     return acc
 
-def oracle_model(res, ast, m, rng, n_env, cap, cfg=False):
+def oracle_model(res, ast, m, rng, n_env, cap, cfg=False, first_envs=()):
     try:
         doc, m2 = roundtrip(m, cfg)
     except Exception as e:
@@ -59,11 +59,13 @@ def oracle_model(res, ast, m, rng, n_env, cap, cfg=False):
     envs = all_envs(lv, cap) if cap else None
     if envs is None:
         envs = [random_env(lv, rng) for _ in range(n_env)]
+    ids = {l.id for l in lv}
+    envs = [{k: v for k, v in e.items() if k in ids} for e in first_envs if ids <= set(e)] + envs
     for env in envs:
         res.evaluations += 1
         a = ref_eval_d(m, {}, env); b_ = ref_eval_d(m2, {}, env) if not is_var(m2) else env[m2.id]
         if a != b_:
-            return f"original evaluates to {a}, round-tripped to {b_} at {env}"
+            return f"original evaluates to {a}, round-tripped to {b_} at {json.dumps(env)}"
     if cfg:
         p1, p2 = m.ge_polyhedron, m2.ge_polyhedron
         same = (np.asarray(p1).tolist() == np.asarray(p2).tolist() and [v.id for v in p1.variables] == [v.id for v in p2.variables]
@@ -84,6 +86,16 @@ def oracle_model(res, ast, m, rng, n_env, cap, cfg=False):
                 return "D15: generated helper ids differ after the round trip: " + str(sorted(gen1 - gen2))[:120] + " vs " + str(sorted(gen2 - gen1))[:120]
             return "ge_polyhedron / default_prios of the round-tripped configurator differ"
     return None
+
+def d15_nodes(m):
+    """generated nodes whose id was NOT generated as (children, value, sign argument None): built with an explicit
+    sign argument (negate(), AtMost, explicitly signed AtLeast) or, for inward-pushed negations, from the
+    pre-negation children — from_json cannot reproduce such an id"""
+    out = []
+    for x in all_nodes(m):
+        if not is_var(x) and x.generated_id and type(x) in (pg.AtLeast,) and x.id != pg.AtLeast._id_generator(x.propositions, x.value, None):
+            out.append(x.id)
+    return out
 
 def xnor_with_compound(m):
     return any(type(x) == pg.XNor and any(not is_var(c) for a in x.propositions for c in a.propositions) for x in all_nodes(m) if not is_var(x))
@@ -173,12 +185,20 @@ def run(res, tier, seed):
             continue
         res.count("stream_D15")
         problem = oracle_model(res, ast, m, rng, 6, 0, cfg=True)
-        if problem and problem.startswith("D15:"):
+        structural = problem and problem.split(":")[0] in ("leaf variables differ", "round trip raised") or (problem or "").startswith(("explicit id", "generated top id", "document carries ids"))
+        if problem and not structural and d15_nodes(m):
             res.known_finding("D15", f"generated ids are not stable under the JSON round trip when the sign was passed explicitly (every negate()/Not result): the round-tripped configurator's polyhedron and default_prios use different helper ids, e.g. {m!r}: {problem}"[:420])
         elif problem:
             res.violation("oracle", f"JSON round trip of configurator {m!r}: {problem}", {"op": "roundtrip", "model": ast_json(ast), "cfg": True, "problem": problem})
     # known-finding streams: a failure is attributed to a finding only by its classifier, anything else is a violation
-    def classify(ast):
+    def failing_env(problem):
+        mm = re.search(r" at (\{.*\})$", problem or "")
+        try:
+            return [json.loads(mm.group(1))] if mm else []
+        except Exception:
+            return []
+    def classify(ast, problem=None):
+        fe = failing_env(problem)
         subs = sorted(sub_asts(ast), key=ast_size)
         for sa in subs:
             try:
@@ -187,12 +207,12 @@ def run(res, tier, seed):
                 continue
             if is_var(sm):
                 continue
-            if oracle_model(res, sa, sm, rng, 30, 300):
+            if oracle_model(res, sa, sm, rng, 30, 300, first_envs=fe):
                 if sa["k"] == "XNor" and any(c["k"] not in ("str", "var") for c in sa["ch"]):
                     return "D6"
                 if sa.get("vb") is not None or any(x.get("vb") is not None for x in sub_asts(sa)):
                     stripped = strip_vb(sa)
-                    if not oracle_model(res, stripped, build(stripped), rng, 30, 300):
+                    if not oracle_model(res, stripped, build(stripped), rng, 30, 300, first_envs=fe):
                         return "D13"
                 return None
         return None
@@ -202,7 +222,7 @@ def run(res, tier, seed):
             problem = oracle_model(res, ast, m, rng, 30, 300)
             res.count("stream_" + label)
             if problem:
-                fid = classify(ast)
+                fid = classify(ast, problem)
                 if fid == "D6":
                     res.known_finding("D6", f"XNor.to_json serialises propositions[0].negate().propositions; with a compound operand the round trip changes the model, e.g. {m!r}: {problem}"[:400])
                 elif fid == "D13":
